@@ -27,6 +27,8 @@ def reasm(prop,extra_quick=(),extra_thorough=()):
     jobs.append(job("alphabet-k5-mif5",".","VH_Reassembler",[prop+"/"],{"k":5,"maxInFlight":5,"alphabet":2},Q,bounds="k=5 operations over a small alphabet (sequence = symbolic base + {0,1}; SYSCALL | PROCTITLE | EOE; Maintain) then Close; maxInFlight=5"))
     for sc in range(4):
         jobs.append(job(f"script-{sc}",".","VH_Reassembler",[prop+"/"],{"k":0,"maxInFlight":4,"script":sc},Q,bounds=f"fixed history #{sc} of 14-24 pushes: events that collect 10-20 records each, interleaved with their neighbours, EOEs, then Close; maxInFlight=4; symbolic sequence base"))
+    if prop=="C10": jobs.append(job("many-open-300",".","VH_Reassembler",[prop+"/"],{"k":0,"maxInFlight":300,"manyopen":300},Q,loop_cap=200000,max_steps=300000000,bounds="300 events open at once (distinct sequences from one of three concrete bases incl. one straddling the roll-over, every third pair out of order, no record completes) under maxInFlight=300, then Close: nothing leaves before Close"))
+    if prop=="C10": jobs.append(job("many-open-1100",".","VH_Reassembler",[prop+"/"],{"k":0,"maxInFlight":1100,"manyopen":1100},T,loop_cap=2000000,max_steps=4000000000,bounds="the same with 1100 events under maxInFlight=1100"))
     jobs.append(job("alphabet-k4-mif5",".","VH_Reassembler",[prop+"/"],{"k":4,"maxInFlight":5,"alphabet":3},Q,bounds="k=4 operations over sequence = base + {0,1,2} x 3 record kinds; maxInFlight=5 (three events buffered at once)"))
     jobs.append(job("alphabet-k4-mif2",".","VH_Reassembler",[prop+"/"],{"k":4,"maxInFlight":2,"alphabet":3},Q,bounds="k=4 operations over sequence = base + {0,1,2} x 3 record kinds; maxInFlight=2"))
     jobs.append(job("alphabet-k6-mif2",".","VH_Reassembler",[prop+"/"],{"k":6,"maxInFlight":2,"alphabet":2},T,bounds="k=6 over base + {0,1} x 3 record kinds; maxInFlight=2"))
@@ -329,10 +331,11 @@ SHAPES=["aF","aFF","Fa","aS","aSk","aFk","Ak","aC","aCF","akk","aSS","w","wp","w
 c14=[]
 for i,sh in enumerate(SHAPES):
     hole = 4 if sh.count("F")+sh.count("C")<=1 else 3
-    ah = 2 if i>=36 and len(sh)==3 else 3
+    ah = 2 if i>=36 and len(sh)>=3 else 3
+    if sh=="wppk": ah = 1  # four holes: 0..3 bytes each is 250 000 paths and more
     c14.append(job("shape-"+(sh or "empty").replace("#","stray"),"rule/flags","VH_Tokens",["C14/"],{"shape":i,"hole":hole,"arghole":ah},Q,
        bounds=f"line shape '{sh}' (a/A: 5 list,action spellings; F/C: filter text of 0..{hole} symbolic ASCII bytes in single quotes; S/k/w/p: 0..{ah} symbolic bytes; #: a stray word)"))
-    if ah==2:
+    if ah<=2:
         c14.append(job("shape3-"+sh,"rule/flags","VH_Tokens",["C14/"],{"shape":i,"hole":hole,"arghole":3},T,bounds=f"line shape '{sh}' with S/k/w/p arguments of 0..3 symbolic bytes"))
     if sh.count("F")+sh.count("C")==1:
         c14.append(job("shape6-"+sh.replace("#","stray"),"rule/flags","VH_Tokens",["C14/"],{"shape":i,"hole":6,"arghole":4},T,bounds=f"line shape '{sh}' with filter text of 0..6 symbolic bytes"))
